@@ -295,6 +295,32 @@ def run_main_scenarios(tid0, n, seed):
     return recs
 
 
+def user_site_scenarios(tid0):
+    """The per-user site-packages directory (`pip install --user`; site.getusersitepackages(), asked of the interpreter, not of
+    monkeytype.config): third-party code there is site-packages like any other.  The oracle's roots include it; the real
+    filter judges code objects compiled with file names below it, next to a user file and an installed one."""
+    core.use_repo()
+    import site
+    import monkeytype.config as cfg
+    user_site = os.path.realpath(site.getusersitepackages())
+    roots = sorted({os.path.realpath(p) for p in (sysconfig.get_path(n) for n in ("stdlib", "purelib", "platlib")) if p} | {user_site})
+    os.environ.pop("MONKEYTYPE_TRACE_MODULES", None)
+    recs = []
+    names = [(os.path.join(user_site, "somepkg", "mod.py"), "somepkg.mod", "user_site_packages"),
+             (os.path.join(user_site, "single.py"), "single", "user_site_packages"),
+             (os.path.join(os.path.dirname(user_site), "not_site", "x.py"), "x", "next_to_user_site_packages"),
+             (os.path.join(sysconfig.get_path("purelib"), "libcst", "__init__.py"), "libcst", "installed"),
+             (os.path.join(os.path.expanduser("~"), "project", "app.py"), "app", "outside")]
+    cfg.default_code_filter.cache_clear()
+    for fn, mod, place in names:
+        v = cfg.default_code_filter(compile("def f():\n    return 1\n", fn, "exec"))
+        recs.append(admit_record(tid0 + len(recs), fn, mod, [], v, roots))
+        recs[-1]["allowset"] = False
+        recs[-1]["case"] = {"place": place, "which": fn}
+    cfg.default_code_filter.cache_clear()
+    return recs
+
+
 def relative_name_scenarios(tid0):
     """Code objects whose co_filename is a BARE RELATIVE name of a real file (runpy.run_path("plugin.py"), compile(src,
     "tool.py")) next to code compiled from strings ("<string>", "<frozen ...>") in one cache lifetime, in both orders: the
@@ -457,7 +483,9 @@ def main(pid, tier, seed, replay=None):
     plan.append({"family": "the interpreter reached through a symlinked prefix: stdlib / site-packages / user file", "cases": len(lnk)})
     reln = relative_name_scenarios(6 * 10 ** 6)
     plan.append({"family": "bare relative file names of real files next to synthetic file names, one cache lifetime, three orders", "cases": len(reln)})
-    allrecs = recs + sweep + runs + vend + dyn + lnk + reln
+    usite = user_site_scenarios(7 * 10 ** 6)
+    plan.append({"family": "the per-user site-packages directory (site.getusersitepackages()) next to installed and user files", "cases": len(usite)})
+    allrecs = recs + sweep + runs + vend + dyn + lnk + reln + usite
     slim = [{k: v for k, v in r.items() if k not in ("case", "ncode", "mode")} for r in allrecs]
     for r in slim:   # homogeneous records per family are not required, but every field a clause reads must exist
         r.setdefault("modules", [])
